@@ -113,9 +113,52 @@ pub fn c02(tier: &str, seed: u64) -> Vec<Case> {
     v
 }
 
+/// root-owner TXT records occupying exactly `bytes` bytes (>= 24) of an uncompressed message
+fn padding(bytes: usize, fill: u8) -> Vec<ResourceRecord<'static>> {
+    let mut out = vec![];
+    let mut left = bytes;
+    let mk = |k: usize| {
+        let mut t = rdata::TXT::new();
+        t.add_char_string(crate::gen::mk_cs(&vec![fill; k]));
+        ResourceRecord::new(Name::new_with_labels(&[]), CLASS::IN, 0, rdata::RData::TXT(t))
+    };
+    // a record with one string of k bytes costs 1 + 10 + 1 + k
+    while left >= 2 * 267 { out.push(mk(255)); left -= 267; }
+    let a = left / 2;
+    let b = left - a;
+    out.push(mk(a - 12));
+    out.push(mk(b - 12));
+    out
+}
+
+/// a sweep of a multi-label name across offset 16383/16384 followed by names sharing its suffixes
+pub fn boundary_packets(tier: &str) -> Vec<(Packet<'static>, String)> {
+    let mut v = vec![];
+    let range: Vec<usize> = if tier == "thorough" { (16330..=16420).collect() } else { (16352..=16396).step_by(1).collect() };
+    for (i, start) in range.into_iter().enumerate() {
+        let mut p = Packet::new_reply(i as u16);
+        p.answers = padding(start - 12, b'p');
+        let lab = |s: &str| s.as_bytes().to_vec();
+        let shapes: [Vec<Vec<u8>>; 2] = [vec![lab("aaaaaaaaaa"), lab("shared"), lab("example")], vec![lab("x"), lab("yy"), lab("zzz"), lab("w"), lab("example")]];
+        let n = &shapes[i % 2];
+        let a = |addr: u32| rdata::RData::A(rdata::A { address: addr });
+        p.additional_records.push(ResourceRecord::new(crate::gen::mk_name(n), CLASS::IN, 1, a(1)));
+        for k in 1..n.len() {
+            let mut m = vec![lab("q")];
+            m.extend_from_slice(&n[k..]);
+            p.additional_records.push(ResourceRecord::new(crate::gen::mk_name(&m), CLASS::IN, 1, a(2)));
+            p.additional_records.push(ResourceRecord::new(crate::gen::mk_name(&n[k..]), CLASS::IN, 1, rdata::RData::MX(rdata::MX { preference: 1, exchange: crate::gen::mk_name(n) })));
+        }
+        v.push((p, "boundary-16383".to_string()));
+    }
+    v
+}
+
 pub fn c03(tier: &str, seed: u64) -> Vec<Case> {
     let mut v = vec![];
-    for (p, tag) in packets(tier, seed ^ 0x33, true) {
+    let mut all = packets(tier, seed ^ 0x33, true);
+    all.extend(boundary_packets(tier));
+    for (p, tag) in all {
         let ptxt = text::packet(&p);
         let (pout, plain) = build_out(&p, false);
         let (cout, comp) = build_out(&p, true);
@@ -132,7 +175,7 @@ pub fn c03(tier: &str, seed: u64) -> Vec<Case> {
                 }
                 if cb.len() > 16383 { c = c.tag("beyond-16383"); }
                 if cb.len() < pb.len() { c = c.tag("actually-compressed"); }
-                if tag != "big" { v.push(Case::new(format!("parse {}", text::hex(cb)), b).tag("parse")); }
+                if tag != "big" && tag != "boundary-16383" { v.push(Case::new(format!("parse {}", text::hex(cb)), b).tag("parse")); }
             }
             _ => { c = c.fail("build-failed", format!("plain: {} compressed: {}", class_of(&pout), class_of(&cout))); }
         }
